@@ -127,7 +127,134 @@ def bounded_field_sets(tier, seed):
             "evaluations": n, "distinct_nontrivial": n, "exhaustive": False, "failures": failures}
 
 
-BOUNDED = [bounded_field_sets]
+def _emitted_models(pkg_dir):
+    """class name -> {"wire": {wire key: python field}, "required": {python fields without default}, "fields": [python fields]} for every dataclass emitted"""
+    import ast
+    import os
+    out = {}
+    mdir = os.path.join(pkg_dir, "models")
+    for f in sorted(os.listdir(mdir)):
+        if not f.endswith(".py") or f == "__init__.py":
+            continue
+        tree = ast.parse(open(os.path.join(mdir, f), encoding="utf-8").read())
+        for cls in [c for c in tree.body if isinstance(c, ast.ClassDef)]:
+            fields = [x for x in cls.body if isinstance(x, ast.AnnAssign) and isinstance(x.target, ast.Name)]
+            wire = None
+            for meta in [c for c in cls.body if isinstance(c, ast.ClassDef) and c.name == "Meta"]:
+                for a in meta.body:
+                    if isinstance(a, ast.Assign) and isinstance(a.targets[0], ast.Name) and a.targets[0].id == "key_transform_with_load":
+                        try:
+                            wire = ast.literal_eval(a.value)
+                        except Exception:  # noqa
+                            wire = None
+            is_dc = any("dataclass" in ast.unparse(d) for d in cls.decorator_list)
+            out[cls.name] = {"fields": [x.target.id for x in fields], "required": {x.target.id for x in fields if x.value is None}, "wire": wire, "dataclass": is_dc,
+                             "bases": [ast.unparse(b) for b in cls.bases]}
+    return out
+
+
+def bounded_emitted_models(tier, seed):
+    """the EMITTED dataclass of every named object schema has exactly one field per declared property (own and allOf-merged), reachable under its wire
+    key, required exactly when the schema requires it — whatever else the schema carries (additionalProperties in every form, nullable, enums, maps)"""
+    import os
+    import shutil
+    from props import gen_harness as G
+    from pyopenapi_gen.core.utils import NameSanitizer
+    S = {"type": "string"}
+    base_props = {"id": S, "user-id": {"type": "integer"}, "tags": {"type": "array", "items": S}, "when": {"type": "string", "format": "date-time", "nullable": True}}
+    schemas = {
+        "Plain": {"type": "object", "required": ["id"], "properties": dict(base_props)},
+        "ApTrue": {"type": "object", "required": ["id"], "properties": dict(base_props), "additionalProperties": True},
+        "ApFalse": {"type": "object", "required": ["id"], "properties": dict(base_props), "additionalProperties": False},
+        "ApString": {"type": "object", "required": ["id"], "properties": dict(base_props), "additionalProperties": S},
+        "ApRef": {"type": "object", "required": ["id", "user-id"], "properties": dict(base_props), "additionalProperties": {"$ref": REF + "Plain"}},
+        "ApInline": {"type": "object", "properties": {"k": S}, "additionalProperties": {"type": "object", "properties": {"z": S}}},
+        "Child": {"allOf": [{"$ref": REF + "Plain"}, {"type": "object", "required": ["extra"], "properties": {"extra": S, "grade": {"type": "integer", "enum": [0, 1, 2]}}}]},
+        "ChildAp": {"allOf": [{"$ref": REF + "ApString"}, {"type": "object", "properties": {"more": S}}]},
+        "Nested": {"type": "object", "required": ["inner"], "properties": {"inner": {"type": "object", "properties": {"a": S}, "additionalProperties": S},
+                                                                         "items": {"type": "array", "items": {"type": "object", "properties": {"q": S}}},
+                                                                         "by_name": {"type": "object", "additionalProperties": {"$ref": REF + "Plain"}},
+                                                                         "mode": {"type": "string", "enum": ["", "on", "off"]}}},
+        "OnlyMap": {"type": "object", "additionalProperties": {"$ref": REF + "Plain"}},
+        "NoType": {"properties": {"x": S, "y": S}, "required": ["y"]},
+        "Level": {"type": "integer", "enum": [0, 1, 2, -1]},
+        "Mode": {"type": "string", "enum": ["", "on", "off", "0", "false"]},
+    }
+    enums = {"Level": [0, 1, 2, -1], "Mode": ["", "on", "off", "0", "false"], "NestedMode": ["", "on", "off"]}
+    d = {"openapi": "3.0.3", "info": {"title": "m", "version": "1"},
+         "paths": {"/x": {"get": {"operationId": "getX", "responses": {"200": {"description": "ok", "content": {"application/json": {"schema": {"$ref": REF + "Nested"}}}}}}}},
+         "components": {"schemas": schemas}}
+    failures, n = [], 0
+    root = G.scratch("c02m")
+    try:
+        err = G.generate(d, root, "cli")
+        if err is not None:
+            return {"function": "emitted models", "backend": "bounded", "bound": "generation failed", "evaluations": 0, "distinct_nontrivial": 0, "exhaustive": False,
+                    "failures": [{"id": "bounded:emitted-model:generation", "detail": f"{type(err).__name__}: {err}", "input": {}}]}
+        models = _emitted_models(os.path.join(root, "cli"))
+        for name, sch in schemas.items():
+            want_p, want_r = ref_fields(schemas, name)
+            if not want_p:
+                continue  # a pure map: no declared properties, any representation is fine here
+            n += 1
+            cname = NameSanitizer.sanitize_class_name(name)
+            m = models.get(cname)
+            if m is None:
+                failures.append({"id": f"bounded:emitted-model:{name}:missing", "detail": f"no class {cname} emitted for schema {name}", "input": {"schema": name}})
+                continue
+            wire = m["wire"] if isinstance(m["wire"], dict) else {f: f for f in m["fields"]}
+            got = {w for w, py in wire.items() if py in m["fields"]}
+            if got != set(want_p):
+                failures.append({"id": f"bounded:emitted-model:{name}:fields", "detail": f"schema {name}: emitted class {cname} carries wire keys {sorted(got)} (fields {m['fields']}, bases {m['bases']}), "
+                                 f"declared properties {sorted(want_p)}", "input": {"schema": name, "definition": sch}})
+                continue
+            got_req = {w for w, py in wire.items() if py in m["required"]}
+            if got_req != set(want_r) & set(want_p):
+                failures.append({"id": f"bounded:emitted-model:{name}:required", "detail": f"schema {name}: required wire keys {sorted(got_req)}, declared {sorted(set(want_r) & set(want_p))}",
+                                 "input": {"schema": name}})
+        # enumerations: the emitted Enum has exactly the declared values (a falsy member such as 0 or "" is a member like any other)
+        import ast as _ast
+        mdir = os.path.join(root, "cli", "models")
+        emitted_enums = {}
+        for f in sorted(os.listdir(mdir)):
+            if f.endswith(".py") and f != "__init__.py":
+                for cls in [c for c in _ast.parse(open(os.path.join(mdir, f), encoding="utf-8").read()).body if isinstance(c, _ast.ClassDef)]:
+                    if any("Enum" in _ast.unparse(b) for b in cls.bases):
+                        vals = []
+                        for a in cls.body:
+                            if isinstance(a, _ast.Assign) and isinstance(a.targets[0], _ast.Name):
+                                try:
+                                    vals.append(_ast.literal_eval(a.value))
+                                except Exception:  # noqa
+                                    pass
+                        emitted_enums[cls.name] = vals
+        for ename, want in enums.items():
+            n += 1
+            cands = [v for k, v in emitted_enums.items() if k.lower().replace("_", "") in (ename.lower(), ename.lower() + "enum")]
+            if not cands:
+                failures.append({"id": f"bounded:emitted-enum:{ename}:missing", "detail": f"no Enum class for {ename} among {sorted(emitted_enums)}", "input": {"enum": ename}})
+            elif sorted(map(repr, cands[0])) != sorted(map(repr, want)):
+                failures.append({"id": f"bounded:emitted-enum:{ename}:members", "detail": f"enum {ename}: emitted values {cands[0]!r}, declared {want!r}", "input": {"enum": ename, "declared": want}})
+        # a declared enum next to an inline enum property of the same name inside an anonymous allOf member (IR level)
+        from pyopenapi_gen.core.loader.loader import load_ir_from_spec
+        d2 = {"openapi": "3.0.3", "info": {"title": "t", "version": "1"}, "paths": {}, "components": {"schemas": {
+            "Plain": {"type": "object", "properties": {"id": S}},
+            "Child": {"allOf": [{"$ref": REF + "Plain"}, {"type": "object", "properties": {"level": {"type": "integer", "enum": [0, 1, 2]}}}]},
+            "Level": {"type": "integer", "enum": [0, 1, 2, -1]}}}}
+        n += 1
+        ir2 = load_ir_from_spec(d2)
+        got2 = list(ir2.schemas["Level"].enum or []) if "Level" in ir2.schemas else None
+        if got2 is None or sorted(got2) != [-1, 0, 1, 2]:
+            failures.append({"id": "bounded:declared-enum-overwritten-by-promoted-inline-enum:Level", "detail": f"declared schema Level (enum [0, 1, 2, -1]) ends up with values {got2}: the inline enum of "
+                             "property `level` inside an anonymous allOf member is registered under the same name", "input": {"schemas": d2["components"]["schemas"]}})
+    finally:
+        shutil.rmtree(root, ignore_errors=True)
+    return {"function": "generate_client: fields / wire keys / required flags of every EMITTED dataclass vs. the declared properties of its schema",
+            "backend": "bounded", "bound": f"{len(schemas)} schemas: properties with additionalProperties true / false / schema / $ref / inline, allOf children, nested inline objects, "
+                                           "maps, enums with falsy members, untyped object", "evaluations": n, "distinct_nontrivial": n, "exhaustive": False, "failures": failures}
+
+
+BOUNDED = [bounded_field_sets, bounded_emitted_models]
 
 MANIFEST = {
     "category": "other",
@@ -145,4 +272,14 @@ def _witness_cycle(k):
     return len(ir.schemas["A"].properties or {}) == 0
 
 
-WITNESS = {"F-C02-cyclic-schema-loses-fields": _witness_cycle}
+def _witness_enum_overwritten(k):
+    from pyopenapi_gen.core.loader.loader import load_ir_from_spec
+    S = {"type": "string"}
+    d2 = {"openapi": "3.0.3", "info": {"title": "t", "version": "1"}, "paths": {}, "components": {"schemas": {
+        "Plain": {"type": "object", "properties": {"id": S}},
+        "Child": {"allOf": [{"$ref": REF + "Plain"}, {"type": "object", "properties": {"level": {"type": "integer", "enum": [0, 1, 2]}}}]},
+        "Level": {"type": "integer", "enum": [0, 1, 2, -1]}}}}
+    return sorted(load_ir_from_spec(d2).schemas["Level"].enum or []) != [-1, 0, 1, 2]
+
+
+WITNESS = {"F-C02-cyclic-schema-loses-fields": _witness_cycle, "F-C02-declared-enum-overwritten": _witness_enum_overwritten}
